@@ -700,6 +700,18 @@ class Group:
                     {k: (op if v == SELF else self.value(v)) for k, v in kwspecs.items()})
 
         (args1, kwargs1), (args2, kwargs2), (args3, kwargs3) = mk(), mk(), mk()
+        call_args, call_kwargs = list(args1), dict(kwargs1)      # what torch.f is called with
+        if self.tab.get("kw_normalised"):
+            # __torch_function__ completes the positional tuple from input= / other=: expectations refer to the completed call
+            def complete(a, k):
+                a, k = list(a), dict(k)
+                for names in (("input", "A"), ("other", "B"))[len(a):]:
+                    nm = next((x for x in names if x in k), None)
+                    if nm is None:
+                        break
+                    a.append(k.pop(nm))
+                return a, k
+            (args1, kwargs1), (args2, kwargs2) = complete(args1, kwargs1), complete(args2, kwargs2)
         kwargs = kwargs1
         kwshow = {k: (arg_token(v) if isinstance(v, torch.Tensor) or is_op(v) else v) for k, v in kwargs1.items()}
         desc = f"{cell} seed={self.gseed} kwargs={kwshow}"
@@ -711,14 +723,14 @@ class Group:
         for s in spies:
             s.__enter__()
         try:
-            r_impl = outcome(lambda: fn(*args1, **kwargs1))
+            r_impl = outcome(lambda: fn(*call_args, **call_kwargs))
         finally:
             for s in reversed(spies):
                 s.__exit__()
         calls = sorted(((s.name,) + s.calls[0] for s in spies if s.calls), key=lambda c: c[4])
         # the handler call is the earliest observed call (the one __torch_function__ makes)
         obs = calls[0][:4] if calls else None
-        tokens = [arg_token(a) for a in args1]
+        tokens = [arg_token(a) for a in call_args]
         if obs is not None:
             nm, definer, a, kw = obs
             swapped = len(args1) > 1 and a[0] is args1[1] and (len(a) < 2 or a[1] is args1[0])
@@ -741,7 +753,7 @@ class Group:
         else:
             impl_route = "no-handler-observed"
         chk.count("route:" + impl_route.split(" ")[0] + (":" + impl_route.split(" ")[1].split(".")[-1] if impl_route.startswith("call") else ""))
-        kwtok = [arg_token(v) for v in kwargs1.values() if isinstance(v, torch.Tensor) or is_op(v) or isinstance(v, FG)]
+        kwtok = [arg_token(v) for v in call_kwargs.values() if isinstance(v, torch.Tensor) or is_op(v) or isinstance(v, FG)]
         if kwtok:
             line = f"dispk {fkey} {';'.join(tokens) or '-'} {';'.join(kwtok)}"
         else:
